@@ -234,7 +234,8 @@ def integrate_spin(expr: Expr, target_idx: str, target_spin: str) -> Expr:
                     # contracted indices are assigned to either a or b spin
                     variants = []
                     for var in product("ab", repeat=len(missing_contracted)):
-                        complete_variant = idx_map.copy()
+                        complete_variant = {sp: indices.copy() for sp, indices
+                                            in idx_map.items()}
                         for spin, idx in zip(var, missing_contracted):
                             complete_variant[spin].add(idx)
                         variants.append(complete_variant)
